@@ -21,7 +21,9 @@
 //                    both pollers poll(0); active lists sorted by channel; then handleEvent on each
 //   TIE c | DROP c   Channel::tie() both objects of c to an owner token | destroy the owner
 //   ON c kind op c2  script: when the <kind> callback (read|write|close|error) of c runs, call
-//                    op (ER|DR|EW|DW|DA|RM) on c2;  OFF forgets all scripts
+//                    op (ER|DR|EW|DW|DA|RM|DEL) on c2;  ON c kind NEW c2 k constructs c2 on descriptor k;
+//                    ON c kind Q <op c2 | NEW c2 k>: the callback queues a functor (queueInLoop) that makes
+//                    the call -- it runs in doPendingFunctors of the same iteration;  OFF forgets all scripts
 //   LOOP k:bits ...  ONE iteration of the real EventLoop::loop() per back-end (poller_ pointed at it,
 //                    poll time-out forced to 0 by --wrap, quit() queued as a pending functor): poll,
 //                    dispatch of the activeChannels_ snapshot with the scripted callbacks, in the
@@ -86,20 +88,20 @@ static void logFlush() { fflush(stderr); }
 struct Desc { char kind; bool open; bool peerOpen; };
 static Desc g_desc[MAXFD];
 
-struct Obj
-{
-  Channel* e; Channel* p; int fd; bool alive; bool reg[2];   // reg[0]: epoll side, reg[1]: poll side
-  std::shared_ptr<int> owner;
-};
+struct Side { Channel* ch; int fd; bool alive; bool reg; std::shared_ptr<int> owner; };
+struct Obj { Side s[2]; };            // s[0]: the object on the epoll side, s[1]: on the poll side
 static Obj g_obj[MAXCH];
-static std::vector<string> g_cbE, g_cbP;
+static std::vector<string> g_cb[2];
 static bool g_dead[2];            // a side whose batch was rejected is not touched again in this case
 
-struct Script { int c; string kind; string op; int c2; };
+struct Script { int c; string kind; bool queued; string op; int c2; int arg; };
 static std::vector<Script> g_scripts;
 static bool g_inBatch = false;    // inside LOOP: callbacks execute their scripts
 static int g_side = 0;            // side the running batch belongs to
 static bool g_batchRejected = false;
+static bool g_snapTaken = false;  // activeChannels_ as (channel id, revents), captured before any callback could destroy one
+static std::vector<std::pair<int, int> > g_snap;
+static std::vector<int> g_fnRan;  // queued functors (script indices) in the order they ran
 static volatile bool g_zeroTimeout = false;
 
 extern "C" int __real_epoll_wait(int, struct epoll_event*, int, int);
@@ -197,12 +199,14 @@ static string kernelInterest(int epfd)
   return os.str();
 }
 
-static int cidOf(Channel* ch, bool epollSide)
+static int cidOf(Channel* ch, int side)
 {
   for (int c = 0; c < MAXCH; ++c)
-    if (g_obj[c].alive && (epollSide ? g_obj[c].e : g_obj[c].p) == ch) return c;
+    if (g_obj[c].s[side].alive && g_obj[c].s[side].ch == ch) return c;
   return -1;
 }
+
+static Poller* pollerOf(int side) { return side == 0 ? static_cast<Poller*>(g_ep) : static_cast<Poller*>(g_pp); }
 
 static string stateString()
 {
@@ -213,20 +217,20 @@ static string stateString()
   {
     os << "E{idx=";
     for (int c = 0; c < MAXCH; ++c)
-      if (g_obj[c].alive) { os << (first ? "" : ",") << c << ":" << g_obj[c].e->index() << "/" << g_obj[c].e->events(); first = false; }
+      if (g_obj[c].s[0].alive) { os << (first ? "" : ",") << c << ":" << g_obj[c].s[0].ch->index() << "/" << g_obj[c].s[0].ch->events(); first = false; }
     os << " map=";
     first = true;
-    for (auto& kv : g_ep->channels_) { os << (first ? "" : ",") << kv.first - FDBASE << ">" << cidOf(kv.second, true); first = false; }
+    for (auto& kv : g_ep->channels_) { os << (first ? "" : ",") << kv.first - FDBASE << ">" << cidOf(kv.second, 0); first = false; }
     os << " kern=" << kernelInterest(g_ep->epollfd_) << " cap=" << g_ep->events_.size() << " kerr=" << g_kerr << "} ";
   }
   if (g_dead[1]) { os << "P{dead}"; return os.str(); }
   os << "P{idx=";
   first = true;
   for (int c = 0; c < MAXCH; ++c)
-    if (g_obj[c].alive) { os << (first ? "" : ",") << c << ":" << g_obj[c].p->index() << "/" << g_obj[c].p->events(); first = false; }
+    if (g_obj[c].s[1].alive) { os << (first ? "" : ",") << c << ":" << g_obj[c].s[1].ch->index() << "/" << g_obj[c].s[1].ch->events(); first = false; }
   os << " map=";
   first = true;
-  for (auto& kv : g_pp->channels_) { os << (first ? "" : ",") << kv.first - FDBASE << ">" << cidOf(kv.second, false); first = false; }
+  for (auto& kv : g_pp->channels_) { os << (first ? "" : ",") << kv.first - FDBASE << ">" << cidOf(kv.second, 1); first = false; }
   os << " pfds=";
   first = true;
   for (auto& pfd : g_pp->pollfds_)
@@ -242,7 +246,7 @@ static string stateString()
 static int aliveCount()
 {
   int n = 0;
-  for (int c = 0; c < MAXCH; ++c) if (g_obj[c].alive) ++n;
+  for (int c = 0; c < MAXCH; ++c) if (g_obj[c].s[0].alive || g_obj[c].s[1].alive) ++n;
   return n;
 }
 
@@ -252,64 +256,15 @@ static void showState(const char* status)
   printf("%s %s\n", status, stateString().c_str());
 }
 
-static bool fdTaken(int fd, int except, int side);
+static void record(int side, int c, const char* kind);
 
-// precondition of a channel op on one side, tested on the driver's own bookkeeping (a violating op
-// would abort the process); cur >= 0: the op is issued by a callback of channel cur during a batch
-static bool opAllowed(const string& op, int c2, int side, int cur)
-{
-  if (c2 < 0 || c2 >= MAXCH || !g_obj[c2].alive) return false;
-  Obj& o = g_obj[c2];
-  Channel* ch = side == 0 ? o.e : o.p;
-  if (op == "RM")
-  {
-    if (!o.reg[side] || !ch->isNoneEvent()) return false;
-    if (cur >= 0 && c2 != cur)
-    {
-      // EventLoop::removeChannel: assert(currentActiveChannel_ == channel || not in activeChannels_)
-      std::vector<Channel*>& act = g_loop->activeChannels_;
-      if (std::find(act.begin(), act.end(), ch) != act.end()) return false;
-    }
-    return true;
-  }
-  return o.reg[side] || !fdTaken(o.fd, c2, side);
-}
-
-static void doOp(const string& op, int c2, int side)
-{
-  Obj& o = g_obj[c2];
-  Channel* ch = side == 0 ? o.e : o.p;
-  if (op == "ER") ch->enableReading();
-  else if (op == "DR") ch->disableReading();
-  else if (op == "EW") ch->enableWriting();
-  else if (op == "DW") ch->disableWriting();
-  else if (op == "DA") ch->disableAll();
-  else if (op == "RM") { ch->remove(); o.reg[side] = false; return; }
-  o.reg[side] = true;
-}
-
-static void record(std::vector<string>* log, int c, const char* kind)
-{
-  char b[64];
-  snprintf(b, sizeof b, "%d:%s", c, kind);
-  log->push_back(b);
-  if (!g_inBatch || g_batchRejected) return;
-  for (size_t i = 0; i < g_scripts.size(); ++i)
-  {
-    const Script& sc = g_scripts[i];
-    if (sc.c != c || sc.kind != kind) continue;
-    if (!opAllowed(sc.op, sc.c2, g_side, c)) { g_batchRejected = true; return; }
-    doOp(sc.op, sc.c2, g_side);
-  }
-}
-
-static Channel* makeChannel(int c, int fd, std::vector<string>* log)
+static Channel* makeChannel(int side, int c, int fd)
 {
   Channel* ch = new Channel(g_loop, fd);
-  ch->setReadCallback([=](Timestamp) { record(log, c, "read"); });
-  ch->setWriteCallback([=]() { record(log, c, "write"); });
-  ch->setCloseCallback([=]() { record(log, c, "close"); });
-  ch->setErrorCallback([=]() { record(log, c, "error"); });
+  ch->setReadCallback([=](Timestamp) { record(side, c, "read"); });
+  ch->setWriteCallback([=]() { record(side, c, "write"); });
+  ch->setCloseCallback([=]() { record(side, c, "close"); });
+  ch->setErrorCallback([=]() { record(side, c, "error"); });
   ch->doNotLogHup();
   return ch;
 }
@@ -325,63 +280,152 @@ static string joinLog(std::vector<string>& v)
 static bool fdTaken(int fd, int except, int side)
 {
   for (int c = 0; c < MAXCH; ++c)
-    if (c != except && g_obj[c].alive && g_obj[c].reg[side] && g_obj[c].fd == fd) return true;
+    if (c != except && g_obj[c].s[side].alive && g_obj[c].s[side].reg && g_obj[c].s[side].fd == fd) return true;
   return false;
 }
 
-// one real iteration of EventLoop::loop() on one back-end; the active list in dispatch order
-static string loopOnce(int side, std::vector<string>* log)
+// precondition of a channel op on one side, tested on the driver's own bookkeeping (a violating op
+// would abort the process); cur >= 0: the op is issued by a callback of channel cur during a batch
+static bool opAllowed(const string& op, int c2, int arg, int side, int cur)
 {
-  Poller* p = side == 0 ? static_cast<Poller*>(g_ep) : static_cast<Poller*>(g_pp);
-  usePoller(p);
-  std::ostringstream os;
-  g_loop->activeChannels_.clear();
-  if (side == 1 && g_pp->pollfds_.empty())
+  if (c2 < 0 || c2 >= MAXCH) return false;
+  Side& o = g_obj[c2].s[side];
+  if (op == "NEW") return !o.alive && arg >= 0 && arg < MAXFD && g_desc[arg].open;
+  if (!o.alive) return false;
+  if (op == "DEL") return !o.reg && c2 != cur;      // ~Channel: assert(!addedToLoop_), assert(!eventHandling_)
+  if (op == "RM")
   {
-    os << "ok n=0 [] cb=";
-    return os.str();
+    if (!o.reg || !o.ch->isNoneEvent()) return false;
+    if (cur >= 0 && c2 != cur)
+    {
+      // EventLoop::removeChannel: assert(currentActiveChannel_ == channel || not in activeChannels_)
+      std::vector<Channel*>& act = g_loop->activeChannels_;
+      if (std::find(act.begin(), act.end(), o.ch) != act.end()) return false;
+    }
+    return true;
   }
-  g_side = side; g_inBatch = true; g_batchRejected = false; g_zeroTimeout = true;
-  g_loop->queueInLoop(std::bind(&EventLoop::quit, g_loop));
-  g_loop->loop();
-  g_zeroTimeout = false; g_inBatch = false;
+  return o.reg || !fdTaken(o.fd, c2, side);
+}
+
+static void doOp(const string& op, int c2, int arg, int side)
+{
+  Side& o = g_obj[c2].s[side];
+  if (op == "NEW")
+  {
+    o.ch = makeChannel(side, c2, FDBASE + arg); o.fd = arg; o.alive = true; o.reg = false; o.owner.reset();
+    return;
+  }
+  if (op == "DEL") { delete o.ch; o.ch = NULL; o.alive = false; return; }
+  Channel* ch = o.ch;
+  if (op == "ER") ch->enableReading();
+  else if (op == "DR") ch->disableReading();
+  else if (op == "EW") ch->enableWriting();
+  else if (op == "DW") ch->disableWriting();
+  else if (op == "DA") ch->disableAll();
+  else if (op == "RM") { ch->remove(); o.reg = false; return; }
+  o.reg = true;
+}
+
+static void takeSnapshot(int side)
+{
+  if (g_snapTaken) return;
+  g_snapTaken = true;
+  g_snap.clear();
   std::vector<Channel*>& act = g_loop->activeChannels_;
-  os << (g_batchRejected ? "rejected" : "ok") << " n=" << act.size();
-  if (side == 0) os << " cap=" << g_ep->events_.size();
-  os << " [";
-  for (size_t i = 0; i < act.size(); ++i)
-    os << (i ? "," : "") << cidOf(act[i], side == 0) << ":" << act[i]->revents_;
-  os << "]";
-  string cbs = joinLog(*log);
-  if (g_batchRejected) g_dead[side] = true; else os << " cb=" << cbs;
-  return os.str();
+  for (size_t i = 0; i < act.size(); ++i) g_snap.push_back(std::make_pair(cidOf(act[i], side), act[i]->revents_));
+}
+
+static void runQueued(int side, int idx)
+{
+  g_fnRan.push_back(idx);
+  if (g_batchRejected) return;
+  const Script& sc = g_scripts[static_cast<size_t>(idx)];
+  // doPendingFunctors runs after the dispatch loop: eventHandling_ is false, no batch assert applies
+  if (!opAllowed(sc.op, sc.c2, sc.arg, side, -1)) { g_batchRejected = true; return; }
+  doOp(sc.op, sc.c2, sc.arg, side);
+}
+
+static void record(int side, int c, const char* kind)
+{
+  char b[64];
+  snprintf(b, sizeof b, "%d:%s", c, kind);
+  g_cb[side].push_back(b);
+  if (!g_inBatch) return;
+  takeSnapshot(side);
+  if (g_batchRejected) return;
+  for (size_t i = 0; i < g_scripts.size(); ++i)
+  {
+    const Script& sc = g_scripts[i];
+    if (sc.c != c || sc.kind != kind) continue;
+    if (sc.queued)
+    {
+      int idx = static_cast<int>(i);
+      g_loop->queueInLoop([side, idx]() { runQueued(side, idx); });
+      continue;
+    }
+    if (!opAllowed(sc.op, sc.c2, sc.arg, side, c)) { g_batchRejected = true; return; }
+    doOp(sc.op, sc.c2, sc.arg, side);
+  }
 }
 
 // one active list -> "c:revents,..." sorted by channel, then handleEvent on each in that order
-static string activeString(Poller::ChannelList& act, bool epollSide, std::vector<string>* log, string* cbs)
+static string activeString(Poller::ChannelList& act, int side, string* cbs)
 {
   std::vector<std::pair<int, Channel*> > v;
-  for (Channel* ch : act) v.push_back(std::make_pair(cidOf(ch, epollSide), ch));
+  for (Channel* ch : act) v.push_back(std::make_pair(cidOf(ch, side), ch));
   std::sort(v.begin(), v.end());
   std::ostringstream os;
   for (size_t i = 0; i < v.size(); ++i)
     os << (i ? "," : "") << v[i].first << ":" << v[i].second->revents_;
   Timestamp now(Timestamp::now());
   for (size_t i = 0; i < v.size(); ++i) v[i].second->handleEvent(now);
-  *cbs = joinLog(*log);
+  *cbs = joinLog(g_cb[side]);
+  return os.str();
+}
+
+// one real iteration of EventLoop::loop() on one back-end; the active list in dispatch order
+static string loopOnce(int side)
+{
+  usePoller(pollerOf(side));
+  std::ostringstream os;
+  g_loop->activeChannels_.clear();
+  if (side == 1 && g_pp->pollfds_.empty())
+  {
+    os << "ok n=0 [] cb= fn=";
+    return os.str();
+  }
+  g_side = side; g_inBatch = true; g_batchRejected = false; g_zeroTimeout = true;
+  g_snapTaken = false; g_fnRan.clear();
+  g_loop->queueInLoop(std::bind(&EventLoop::quit, g_loop));
+  g_loop->loop();
+  g_zeroTimeout = false; g_inBatch = false;
+  takeSnapshot(side);            // no callback ran: nothing was destroyed, the list can still be read
+  os << (g_batchRejected ? "rejected" : "ok") << " n=" << g_snap.size();
+  if (side == 0) os << " cap=" << g_ep->events_.size();
+  os << " [";
+  for (size_t i = 0; i < g_snap.size(); ++i)
+    os << (i ? "," : "") << g_snap[i].first << ":" << g_snap[i].second;
+  os << "]";
+  string cbs = joinLog(g_cb[side]);
+  if (g_batchRejected) g_dead[side] = true;
+  else
+  {
+    os << " cb=" << cbs << " fn=";
+    for (size_t i = 0; i < g_fnRan.size(); ++i) os << (i ? "," : "") << g_fnRan[i];
+  }
+  g_loop->activeChannels_.clear();   // may hold pointers to destroyed channels
   return os.str();
 }
 
 static void resetCase()
 {
   for (int c = 0; c < MAXCH; ++c)
-  {
-    // Channel objects are leaked on purpose: their destructor asserts they were removed
-    g_obj[c].alive = false; g_obj[c].reg[0] = g_obj[c].reg[1] = false; g_obj[c].e = NULL; g_obj[c].p = NULL;
-    g_obj[c].owner.reset();
-  }
-  g_dead[0] = g_dead[1] = false;
-  g_scripts.clear();
+    for (int side = 0; side < 2; ++side)
+    {
+      // Channel objects are leaked on purpose: their destructor asserts they were removed
+      Side& o = g_obj[c].s[side];
+      o.alive = false; o.reg = false; o.ch = NULL; o.owner.reset();
+    }
   for (int k = 0; k < MAXFD; ++k)
   {
     if (g_desc[k].open) ::close(FDBASE + k);
@@ -393,7 +437,28 @@ static void resetCase()
   g_ep = new EPollPoller(g_loop);
   g_pp = new PollPoller(g_loop);
   g_kerr = 0;
-  g_cbE.clear(); g_cbP.clear();
+  g_cb[0].clear(); g_cb[1].clear();
+  g_dead[0] = g_dead[1] = false;
+  g_scripts.clear();
+}
+
+// a top-level channel op on both sides: "ok" / "rejected" / "MIXED" (the sides went apart: the case ends)
+static bool topLevel(const string& op, int c, int arg, bool* bad)
+{
+  bool use[2] = { !g_dead[0], !g_dead[1] };
+  int nuse = 0, nok = 0;
+  bool ok[2];
+  for (int side = 0; side < 2; ++side)
+  {
+    ok[side] = opAllowed(op, c, arg, side, -1);
+    if (use[side]) { ++nuse; if (ok[side]) ++nok; }
+  }
+  if (nuse > 0 && nok == 0) { showState("rejected"); return false; }
+  if (nok < nuse) { printf("MIXED\n"); *bad = true; return false; }
+  for (int side = 0; side < 2; ++side)
+    if (use[side]) { usePoller(pollerOf(side)); doOp(op, c, arg, side); }
+  showState("ok");
+  return true;
 }
 
 // ------------------------------------------------------------------ free-running loop scenario
@@ -435,6 +500,16 @@ static void loopScenario(const string& backend)
   int64_t e0 = iterOf(l); msleep(150); int64_t e = iterOf(l);
   os << " task=" << (taskRuns.load() == 1 && e0 - d <= 2 ? "ok" : "BAD(" + std::to_string(taskRuns.load()) + "," + std::to_string(e0 - d) + ")");
   os << " idle3=" << (e - e0 == 0 ? "blocked" : "SPINS(" + std::to_string(e - e0) + ")");
+  // 3b. a functor that queues another functor while doPendingFunctors is running (callingPendingFunctors_): the second
+  //     one must be woken for at once (not after the 10 s poll time-out), runs once, and the loop blocks again
+  std::atomic<int> nestedRuns(0);
+  l->queueInLoop([&, l]() { l->queueInLoop([&]() { ++nestedRuns; }); });
+  msleep(60);
+  int nr = nestedRuns.load();
+  int64_t g0 = iterOf(l); msleep(150); int64_t g1 = iterOf(l);
+  os << " nested=" << (nr == 1 ? "ok" : "BAD(" + std::to_string(nr) + ")");
+  os << " idle3b=" << (g1 - g0 == 0 ? "blocked" : "SPINS(" + std::to_string(g1 - g0) + ")");
+  e = g1;
   // 4. a timer: fires once (timerfd read by readTimerfd), loop blocks again
   l->runAfter(0.03, [&]() { ++timerRuns; });
   msleep(120);
@@ -452,7 +527,6 @@ int main()
   ::signal(SIGPIPE, SIG_IGN);
   Logger::setOutput(logOut);
   Logger::setFlush(logFlush);
-  // keep low descriptor numbers busy is not needed: channel descriptors are moved to FDBASE+k
   EventLoop loop;
   g_loop = &loop;
   Poller* orig = loop.poller_.release();
@@ -529,8 +603,11 @@ int main()
       else // close
       {
         bool used = false;
-        for (int c = 0; c < MAXCH; ++c) if (g_obj[c].alive && g_obj[c].fd == a) used = true;
-        if (used) { invalid("close with a live channel"); bad = true; continue; }
+        for (int c = 0; c < MAXCH; ++c)
+          for (int side = 0; side < 2; ++side)
+            if (g_obj[c].s[side].alive && g_obj[c].s[side].fd == a) used = true;
+        for (size_t i = 0; i < g_scripts.size(); ++i) if (g_scripts[i].op == "NEW" && g_scripts[i].arg == a) used = true;
+        if (used) { invalid("close with a live channel or a script constructing one"); bad = true; continue; }
         ::close(fd); d.open = false;
         if (d.peerOpen) { ::close(peer); d.peerOpen = false; }
       }
@@ -541,114 +618,57 @@ int main()
     {
       int fdk = w.size() > 2 ? atoi(w[2].c_str()) : -1;
       if (a < 0 || a >= MAXCH || fdk < 0 || fdk >= MAXFD || !g_desc[fdk].open) { invalid("NEW"); bad = true; continue; }
-      if (g_obj[a].alive) { showState("rejected"); continue; }
-      g_obj[a].e = makeChannel(a, FDBASE + fdk, &g_cbE);
-      g_obj[a].p = makeChannel(a, FDBASE + fdk, &g_cbP);
-      g_obj[a].fd = fdk; g_obj[a].alive = true; g_obj[a].reg[0] = g_obj[a].reg[1] = false;
-      g_obj[a].owner.reset();
-      showState("ok");
+      topLevel("NEW", a, fdk, &bad);
     }
-    else if (k == "DEL")
+    else if (k == "DEL" || k == "RM" || k == "ER" || k == "DR" || k == "EW" || k == "DW" || k == "DA")
     {
-      if (a < 0 || a >= MAXCH) { invalid("DEL"); bad = true; continue; }
-      {
-        // ~Channel asserts !addedToLoop_ on each object; a dead side is left alone (its object leaks)
-        bool use[2] = { !g_dead[0], !g_dead[1] };
-        int nuse = 0, nok = 0;
-        for (int side = 0; side < 2; ++side) if (use[side]) { ++nuse; if (g_obj[a].alive && !g_obj[a].reg[side]) ++nok; }
-        if (!g_obj[a].alive || (nuse > 0 && nok == 0)) { showState("rejected"); continue; }
-        if (nok < nuse) { printf("MIXED\n"); bad = true; continue; }
-        if (use[0]) { usePoller(g_ep); delete g_obj[a].e; }
-        if (use[1]) { usePoller(g_pp); delete g_obj[a].p; }
-        g_obj[a].alive = false;
-        showState("ok");
-      }
-    }
-    else if (k == "ER" || k == "DR" || k == "EW" || k == "DW" || k == "DA")
-    {
-      if (a < 0 || a >= MAXCH) { invalid("update"); bad = true; continue; }
-      {
-        bool ok[2], use[2] = { !g_dead[0], !g_dead[1] };
-        for (int side = 0; side < 2; ++side) ok[side] = opAllowed(k, a, side, -1);
-        int nuse = 0, nok = 0;
-        for (int side = 0; side < 2; ++side) if (use[side]) { ++nuse; if (ok[side]) ++nok; }
-        if (!g_obj[a].alive || (nuse > 0 && nok == 0)) { showState("rejected"); continue; }
-        if (nok < nuse) { printf("MIXED\n"); bad = true; continue; }
-        for (int side = 0; side < 2; ++side)
-          if (use[side])
-          {
-            usePoller(side == 0 ? static_cast<Poller*>(g_ep) : static_cast<Poller*>(g_pp));
-            doOp(k, a, side);
-          }
-        showState("ok");
-      }
-    }
-    else if (k == "RM")
-    {
-      if (a < 0 || a >= MAXCH) { invalid("RM"); bad = true; continue; }
-      {
-        bool ok[2], use[2] = { !g_dead[0], !g_dead[1] };
-        for (int side = 0; side < 2; ++side) ok[side] = opAllowed("RM", a, side, -1);
-        int nuse = 0, nok = 0;
-        for (int side = 0; side < 2; ++side) if (use[side]) { ++nuse; if (ok[side]) ++nok; }
-        if (!g_obj[a].alive || (nuse > 0 && nok == 0)) { showState("rejected"); continue; }
-        if (nok < nuse) { printf("MIXED\n"); bad = true; continue; }
-        for (int side = 0; side < 2; ++side)
-          if (use[side])
-          {
-            usePoller(side == 0 ? static_cast<Poller*>(g_ep) : static_cast<Poller*>(g_pp));
-            doOp("RM", a, side);
-          }
-        showState("ok");
-      }
+      if (a < 0 || a >= MAXCH) { invalid("channel op"); bad = true; continue; }
+      topLevel(k, a, -1, &bad);
     }
     else if (k == "INJ")
     {
-      if (a < 0 || a >= MAXCH || !g_obj[a].alive || w.size() < 3) { invalid("INJ"); bad = true; continue; }
-      g_obj[a].e->set_revents(atoi(w[2].c_str()));
-      g_obj[a].e->handleEvent(Timestamp::now());
-      printf("inj cb=%s\n", joinLog(g_cbE).c_str());
+      if (a < 0 || a >= MAXCH || !g_obj[a].s[0].alive || w.size() < 3) { invalid("INJ"); bad = true; continue; }
+      g_obj[a].s[0].ch->set_revents(atoi(w[2].c_str()));
+      g_obj[a].s[0].ch->handleEvent(Timestamp::now());
+      printf("inj cb=%s\n", joinLog(g_cb[0]).c_str());
     }
     else if (k == "TIE" || k == "DROP")
     {
-      if (a < 0 || a >= MAXCH || !g_obj[a].alive) { invalid("TIE/DROP"); bad = true; continue; }
-      if (k == "TIE")
+      if (a < 0 || a >= MAXCH) { invalid("TIE/DROP"); bad = true; continue; }
+      for (int side = 0; side < 2; ++side)
       {
-        g_obj[a].owner.reset(new int(a));
-        g_obj[a].e->tie(g_obj[a].owner);
-        g_obj[a].p->tie(g_obj[a].owner);
-        printf("tie\n");
+        Side& o = g_obj[a].s[side];
+        if (!o.alive) continue;
+        if (k == "TIE") { o.owner.reset(new int(a)); o.ch->tie(o.owner); }
+        else o.owner.reset();
       }
-      else { g_obj[a].owner.reset(); printf("drop\n"); }
+      printf(k == "TIE" ? "tie\n" : "drop\n");
     }
     else if (k == "ON")
     {
+      // ON c kind [Q] op c2 [k]
+      Script sc; sc.c = a; sc.queued = false; sc.arg = -1;
+      size_t i = 3;
       if (w.size() < 5) { invalid("ON"); bad = true; continue; }
-      Script sc; sc.c = a; sc.kind = w[2]; sc.op = w[3]; sc.c2 = atoi(w[4].c_str());
+      sc.kind = w[2];
+      if (w[i] == "Q") { sc.queued = true; ++i; }
+      if (w.size() < i + 2) { invalid("ON"); bad = true; continue; }
+      sc.op = w[i]; sc.c2 = atoi(w[i + 1].c_str());
+      if (sc.op == "NEW")
+      {
+        if (w.size() < i + 3) { invalid("ON NEW"); bad = true; continue; }
+        sc.arg = atoi(w[i + 2].c_str());
+        if (sc.arg < 0 || sc.arg >= MAXFD || !g_desc[sc.arg].open) { invalid("ON NEW descriptor"); bad = true; continue; }
+      }
       bool kindOk = sc.kind == "read" || sc.kind == "write" || sc.kind == "close" || sc.kind == "error";
-      bool opOk = sc.op == "ER" || sc.op == "DR" || sc.op == "EW" || sc.op == "DW" || sc.op == "DA" || sc.op == "RM";
+      bool opOk = sc.op == "ER" || sc.op == "DR" || sc.op == "EW" || sc.op == "DW" || sc.op == "DA" || sc.op == "RM" ||
+                  sc.op == "NEW" || sc.op == "DEL";
       if (!kindOk || !opOk || a < 0 || a >= MAXCH || sc.c2 < 0 || sc.c2 >= MAXCH) { invalid("ON"); bad = true; continue; }
       g_scripts.push_back(sc);
       printf("on\n");
     }
     else if (k == "OFF") { g_scripts.clear(); printf("off\n"); }
-    else if (k == "LOOP")
-    {
-      std::vector<struct pollfd> raw;
-      for (int d = 0; d < MAXFD; ++d)
-        if (g_desc[d].open) { struct pollfd p; p.fd = FDBASE + d; p.events = POLLIN | POLLPRI | POLLOUT | POLLRDHUP; p.revents = 0; raw.push_back(p); }
-      if (!raw.empty()) ::poll(&raw[0], raw.size(), 0);
-      std::ostringstream env;
-      bool first = true;
-      for (size_t i = 0; i < raw.size(); ++i)
-        if (raw[i].revents) { env << (first ? "" : ",") << raw[i].fd - FDBASE << ":" << raw[i].revents; first = false; }
-      string sE = g_dead[0] ? string("dead") : loopOnce(0, &g_cbE);
-      string sP = g_dead[1] ? string("dead") : loopOnce(1, &g_cbP);
-      printf("loop env=%s E %s | P %s || %s\n", env.str().c_str(), sE.c_str(), sP.c_str(),
-             aliveCount() > 16 ? "big" : stateString().c_str());
-      if (g_dead[0] && g_dead[1]) bad = true;     // nothing left to compare in this case
-    }
-    else if (k == "POLL")
+    else if (k == "LOOP" || k == "POLL")
     {
       // observed readiness of every open descriptor (independent raw poll(2), all conditions asked)
       std::vector<struct pollfd> raw;
@@ -659,20 +679,31 @@ int main()
       bool first = true;
       for (size_t i = 0; i < raw.size(); ++i)
         if (raw[i].revents) { env << (first ? "" : ",") << raw[i].fd - FDBASE << ":" << raw[i].revents; first = false; }
-      Poller::ChannelList actE, actP;
-      usePoller(g_ep); if (!g_dead[0]) g_ep->poll(0, &actE);
-      // an EventLoop always has its wake-up and timer channels registered, so PollPoller::poll is never
-      // entered with an empty pollfds_ (there `&*pollfds_.begin()` would bind a null reference)
-      usePoller(g_pp); if (!g_dead[1] && !g_pp->pollfds_.empty()) g_pp->poll(0, &actP);
-      string cbE, cbP;
-      size_t nE = actE.size(), nP = actP.size();
-      string sE = activeString(actE, true, &g_cbE, &cbE);
-      string sP = activeString(actP, false, &g_cbP, &cbP);
-      char partE[64], partP[64];
-      snprintf(partE, sizeof partE, "E n=%zu cap=%zu", nE, g_ep->events_.size());
-      snprintf(partP, sizeof partP, "P n=%zu", nP);
-      printf("poll env=%s %s [%s] cb=%s | %s [%s] cb=%s\n", env.str().c_str(), g_dead[0] ? "E dead" : partE,
-             sE.c_str(), cbE.c_str(), g_dead[1] ? "P dead" : partP, sP.c_str(), cbP.c_str());
+      if (k == "LOOP")
+      {
+        string sE = g_dead[0] ? string("dead") : loopOnce(0);
+        string sP = g_dead[1] ? string("dead") : loopOnce(1);
+        printf("loop env=%s E %s | P %s || %s\n", env.str().c_str(), sE.c_str(), sP.c_str(),
+               aliveCount() > 16 ? "big" : stateString().c_str());
+        if (g_dead[0] && g_dead[1]) bad = true;     // nothing left to compare in this case
+      }
+      else
+      {
+        Poller::ChannelList actE, actP;
+        usePoller(g_ep); if (!g_dead[0]) g_ep->poll(0, &actE);
+        // an EventLoop always has its wake-up and timer channels registered, so PollPoller::poll is never
+        // entered with an empty pollfds_ (there `&*pollfds_.begin()` would bind a null reference)
+        usePoller(g_pp); if (!g_dead[1] && !g_pp->pollfds_.empty()) g_pp->poll(0, &actP);
+        string cbE, cbP;
+        size_t nE = actE.size(), nP = actP.size();
+        string sE = activeString(actE, 0, &cbE);
+        string sP = activeString(actP, 1, &cbP);
+        char partE[64], partP[64];
+        snprintf(partE, sizeof partE, "E n=%zu cap=%zu", nE, g_ep->events_.size());
+        snprintf(partP, sizeof partP, "P n=%zu", nP);
+        printf("poll env=%s %s [%s] cb=%s | %s [%s] cb=%s\n", env.str().c_str(), g_dead[0] ? "E dead" : partE,
+               sE.c_str(), cbE.c_str(), g_dead[1] ? "P dead" : partP, sP.c_str(), cbP.c_str());
+      }
     }
     else { invalid("unknown op"); bad = true; continue; }
     fflush(stdout);
